@@ -44,6 +44,11 @@ def small_scenarios(pid):
     S["cont-race-max1"] = ["O pool 1", "O wi 1", "O wi 2", "O wi 3", "O tk 1", "S pool_create 1 1", "S tk_reg 1", "R tk 1 0 1 submit 1 1",
                            "S pool_create 1 1", "R wi 1 1 1 yield", "R wi 1 2 1 submit 2 1", "R wi 2 1 1 submit_cont 3 1", "R wi 2 1 1 yield",
                            "R wi 3 1 0 yield", "R wi 3 2 1 pool_put 1"]
+    # creating the second worker fails (EAGAIN): the error is dropped, the first worker does all the work,
+    # and the pool must still shut down (a fault outside the quantifier of C12/C13, kept because it is cheap)
+    S["create-fail"] = ["F pthread_create 2 EAGAIN 0", "O pool 1", "O wi 1", "O wi 2", "O tm 1", "O tm 2", "S pool_create 1 2",
+                        "S submit 1 1", "S tm_reg 1 1 0 1000", "S tm_reg 2 1 1 0", "R wi 1 1 1 wait_flag 1",
+                        "R tm 1 0 1 submit 2 1", "R tm 2 0 1 set_flag 1", "R wi 2 2 1 pool_put 1"]
     S["put-early"] = ["O pool 1", "O wi 1", "O wi 2", "S pool_create 1 2", "S submit 1 1", "S submit 2 1", "S pool_put 1"]
     S["put-empty"] = ["O pool 1", "S pool_create 1 2", "S pool_put 1"]
     S["null-pool"] = ["O wi 1", "O wi 2", "S submit 1 0", "S submit 2 0", "R wi 1 2 1 submit 1 0"]
@@ -114,7 +119,8 @@ def run(pid, tier, seed, replay=None):
     exe = corerun.build_core("plain")
     rnd = random.Random(seed)
     with vlib.Scratch("verif-" + pid) as sc:
-        mcs = [("IvWork.tla", "MC_Work.cfg" if tier == "thorough" else "MC_Work_quick.cfg"), ("IvWork.tla", "MC_Work_live.cfg")]
+        mcs = [("IvWork.tla", "MC_Work.cfg" if tier == "thorough" else "MC_Work_quick.cfg"), ("IvWork.tla", "MC_Work_live.cfg"),
+               ("IvWork.tla", "MC_Work_fail.cfg"), ("IvWork.tla", "MC_Work_live_fail.cfg")]
         pool = cf.ThreadPoolExecutor(len(mcs))
         futs = [pool.submit(vlib.tlc, m, c, sc, workers=max(2, vlib.NCPU // 2), timeout=1500, coverage=True) for m, c in mcs]
         scripts, tfs, exhausted = [], [], []
